@@ -1157,7 +1157,8 @@ class Histogram:
                 f.write("\n")
 
             for idx in range(self.number_of_histograms_):
-                header = [hist_labels[idx][col] for col in columns]
+                labels = hist_labels[idx] if len(hist_labels) > 1 else hist_labels[0]
+                header = [labels[col] for col in columns]
                 writer.writerow(header)
                 for i in range(self.number_of_bins_):
                     data = [
